@@ -1,8 +1,502 @@
-//! C18 — not built yet.
+//! C18 — strict YAML validation never rejects a well-formed document (DESIGN §4 C18).
+//!
+//! Sub-checks
+//! * `generated-accepted` — every G-yaml stream of C14's presentation space (the shapes of
+//!   C18's own open findings excluded by construction): `yaml::validate::validate(text)`
+//!   must be `Ok`.
+//! * `open-finding-shapes` — the same without the exclusion: a rejection must carry a listed
+//!   signature (counted by the engine), anything else is a violation.
+//! * `arbitrary-positions` — raw bytes, indicator soups and mutations of generated streams
+//!   (≤ 4 KiB): the call returns (a panic is a failure), and on `Err` the position satisfies
+//!   `offset <= len` and `line`/`column` are the documented 1-indexed line and byte column
+//!   of `offset`, counting LF, CR and CRLF as one break each (validate.rs `Position` docs;
+//!   src/yaml/line_break.rs). The line/column assertion is skipped where the two
+//!   conventions could disagree: an offset between the CR and the LF of a CRLF.
+//!
+//! A hang cannot be caught in-process; sizes are kept ≤ 4 KiB (the lead adds worker
+//! isolation and the CLI layer).
 use crate::engine::*;
+use crate::gen::yaml::{self as gy, YAvoid, YOpts};
+use crate::props::c14;
+use serde_json::{json, Value};
+use succinctly::yaml::validate::{validate, YamlValidationError, YamlValidationErrorKind};
 
-pub const RULE: &str = "not built";
+pub const RULE: &str = "Accept: G-yaml streams as in C14 (every presentation device drawn independently per node); validate() must be Ok. Non-trivial as C14: >=2 collection styles and >=3 scalar styles and a comment; distinct by hash(text). Positions: raw bytes / YAML indicator soups / mutated generated streams up to 4 KiB; on Err offset<=len and (line,column) = naive LF/CR/CRLF position of offset; non-trivial: the validator returned Err (a position was checked).";
+
+fn kind_name(k: &YamlValidationErrorKind) -> String {
+    let d = format!("{:?}", k);
+    d.split(|c: char| !c.is_alphanumeric()).next().unwrap_or("?").to_string()
+}
+
+/// The naive (line, column) of a byte offset: both 1-indexed, column in bytes; LF, CR and
+/// CRLF each end a line. None when `offset` sits between the CR and LF of a CRLF.
+pub fn naive_line_col(text: &[u8], offset: usize) -> Option<(usize, usize)> {
+    if offset > 0 && offset < text.len() && text[offset - 1] == b'\r' && text[offset] == b'\n' {
+        return None;
+    }
+    let mut line = 1;
+    let mut start = 0;
+    let mut i = 0;
+    while i < offset.min(text.len()) {
+        match text[i] {
+            b'\n' => {
+                line += 1;
+                start = i + 1;
+            }
+            b'\r' => {
+                if text.get(i + 1) == Some(&b'\n') && i + 1 < offset {
+                    i += 1;
+                }
+                line += 1;
+                start = i + 1;
+            }
+            _ => {}
+        }
+        i += 1;
+    }
+    Some((line, offset - start + 1))
+}
+
+fn check_position(text: &[u8], e: &YamlValidationError) -> Result<(), Fail> {
+    let p = e.position;
+    if p.offset > text.len() {
+        fail!("C18/position/offset-past-end", {"offset": p.offset, "len": text.len(), "error": e.to_string(), "text": show_bytes(text), "text_hex": hex(text)});
+    }
+    if let Some((l, c)) = naive_line_col(text, p.offset) {
+        if (l, c) != (p.line, p.column) {
+            fail!(format!("C18/position/line-column/{}", kind_name(&e.kind)), {"offset": p.offset, "expected": [l, c], "actual": [p.line, p.column], "error": e.to_string(), "text": show_bytes(text), "text_hex": hex(text)});
+        }
+    }
+    Ok(())
+}
+
+/// Trigger predicates of the recorded findings (DESIGN §2.6).
+fn shape_tag(text: &[u8], e: &YamlValidationError) -> Option<&'static str> {
+    let lines = c14::lines_of(text);
+    let ind = |l: &[u8]| l.iter().take_while(|&&b| b == b' ').count();
+    if e.kind == YamlValidationErrorKind::BadIndentation {
+        // (1) compact `- key:` mapping whose first value is a nested (deeper) block
+        //     collection; the second key, back at the compact mapping's column, is rejected.
+        // error line: the one holding `offset`
+        let mut off = 0;
+        let mut idx = None;
+        let mut pos = 0;
+        for (i, l) in lines.iter().enumerate() {
+            let end = pos + l.len();
+            if e.position.offset >= pos && e.position.offset <= end {
+                idx = Some(i);
+                off = pos;
+                break;
+            }
+            // skip the break
+            pos = end;
+            if text.get(pos) == Some(&b'\r') && text.get(pos + 1) == Some(&b'\n') {
+                pos += 2;
+            } else {
+                pos += 1;
+            }
+        }
+        let _ = off;
+        if let Some(i) = idx {
+            let d = ind(lines[i]);
+            // walk back over deeper lines to the line that opened the compact mapping
+            let mut j = i;
+            let mut saw_deeper = false;
+            while j > 0 {
+                j -= 1;
+                let l = lines[j];
+                let t: &[u8] = &l[ind(l).min(l.len())..];
+                if t.is_empty() || t.first() == Some(&b'#') {
+                    continue;
+                }
+                if ind(l) > d {
+                    saw_deeper = true;
+                    continue;
+                }
+                if ind(l) == d {
+                    // an earlier sibling at the same column (a same-indent sequence value in
+                    // between un-registers it again): keep walking to the opening line
+                    saw_deeper = true;
+                    continue;
+                }
+                // shallower: must be a `- ` chain; the rejected line returns to the column of
+                // a nested compact collection: a later dash of the chain or the content
+                // after the chain
+                let mut c = ind(l);
+                let mut cols = vec![];
+                while l.get(c) == Some(&b'-') && matches!(l.get(c + 1), Some(b' ')) {
+                    c += 1;
+                    while l.get(c) == Some(&b' ') {
+                        c += 1;
+                    }
+                    cols.push(c);
+                }
+                if cols.contains(&d) && saw_deeper {
+                    return Some("compact-collection-return-after-deeper");
+                }
+                break;
+            }
+        }
+    }
+    // (3) one of `[ { ' "` after white space / `,` / `[` / `{`, or `|` `>` after white space,
+    //     *inside* a block plain scalar taken for the start of a node
+    if !matches!(e.kind, YamlValidationErrorKind::TabInIndentation | YamlValidationErrorKind::InvalidUtf8 | YamlValidationErrorKind::NestingTooDeep { .. }) && lines.iter().any(|l| plain_with_opener(l))
+    {
+        return Some("opener-inside-plain-scalar");
+    }
+    if matches!(e.kind, YamlValidationErrorKind::UnknownAnchor { .. } | YamlValidationErrorKind::BadIndentation | YamlValidationErrorKind::TrailingContent) {
+        // (4) a block scalar opened on a compact line (`- - |`, `- k: |`): its content is
+        //     measured against the line's indentation, so following sibling lines are
+        //     swallowed (anchors defined there are unknown, indentation frames go missing)
+        let is_header_line = |l: &[u8]| {
+            let mut t = l;
+            if let Some(p) = t.windows(2).position(|x| matches!(x[0], b' ' | b'\t') && x[1] == b'#') {
+                t = &t[..p];
+            }
+            while matches!(t.last(), Some(b' ' | b'\t')) {
+                t = &t[..t.len() - 1];
+            }
+            let tok = t.rsplit(|&b| b == b' ' || b == b'\t').next().unwrap_or(b"");
+            matches!(tok, b"|" | b">" | b"|-" | b"|+" | b">-" | b">+")
+        };
+        let compact = |l: &[u8]| {
+            let t = &l[ind(l).min(l.len())..];
+            t.starts_with(b"- ") && {
+                let r = c14::trim_ws(&t[2..]);
+                r.starts_with(b"- ") || r.windows(2).any(|x| x[0] == b':' && matches!(x[1], b' ' | b'\t'))
+            }
+        };
+        if lines.iter().any(|l| is_header_line(l) && compact(l)) {
+            return Some("block-scalar-on-compact-line");
+        }
+    }
+    if e.kind == YamlValidationErrorKind::TabInIndentation {
+        // (2) `-<ws with tab>` followed by a flow collection or a quoted scalar (the `: `
+        //     that makes the validator think of a mapping key is inside it)
+        let ls = text[..e.position.offset.min(text.len())].iter().rposition(|&b| b == b'\n' || b == b'\r').map(|p| p + 1).unwrap_or(0);
+        let mut i = ls;
+        while text.get(i) == Some(&b' ') {
+            i += 1;
+        }
+        let mut tab = false;
+        let mut dashes = 0;
+        loop {
+            if text.get(i) == Some(&b'-') && matches!(text.get(i + 1), Some(b' ' | b'\t')) {
+                dashes += 1;
+                i += 1;
+                while let Some(&b) = text.get(i) {
+                    if b == b'\t' {
+                        tab = true;
+                    } else if b != b' ' {
+                        break;
+                    }
+                    i += 1;
+                }
+            } else {
+                break;
+            }
+        }
+        // an anchor may stand between the dash and the node
+        if text.get(i) == Some(&b'&') {
+            while !matches!(text.get(i), None | Some(b' ' | b'\t' | b'\n' | b'\r')) {
+                i += 1;
+            }
+            while matches!(text.get(i), Some(b' ' | b'\t')) {
+                i += 1;
+            }
+        }
+        if dashes > 0 && tab && matches!(text.get(i), Some(b'{' | b'[' | b'"' | b'\'')) {
+            return Some("tab-after-dash-before-flow-or-quoted");
+        }
+    }
+    None
+}
+
+/// Does this line hold a block-context plain scalar (key or value) that contains white space
+/// followed by one of `[ { ' " | >`?
+fn plain_with_opener(l: &[u8]) -> bool {
+    let mut t = c14::trim_ws(l);
+    // `- ` chain
+    while t.first() == Some(&b'-') && matches!(t.get(1), Some(b' ' | b'\t')) {
+        t = c14::trim_ws(&t[1..]);
+    }
+    let has_opener = |s: &[u8]| {
+        s.windows(2).any(|w| (matches!(w[0], b' ' | b'\t') && b"[{'\"|>".contains(&w[1])) || (b",[{".contains(&w[0]) && b"[{'\"".contains(&w[1])))
+    };
+    let plain_start = |s: &[u8]| !matches!(s.first(), None | Some(b'[' | b'{' | b'\'' | b'"' | b'|' | b'>' | b'&' | b'*' | b'!' | b'#'));
+    // a plain value after any `: ` of the line (the key may be quoted)
+    for p in 0..t.len().saturating_sub(1) {
+        if t[p] == b':' && matches!(t[p + 1], b' ' | b'\t') {
+            let val = c14::trim_ws(&t[p + 1..]);
+            if plain_start(val) && has_opener(val) {
+                return true;
+            }
+        }
+    }
+    if !plain_start(t) {
+        return false;
+    }
+    // a plain key, or a plain scalar without any value indicator
+    match t.windows(2).position(|w| w[0] == b':' && matches!(w[1], b' ' | b'\t')) {
+        Some(p) => has_opener(&t[..p]),
+        None => has_opener(if t.ends_with(b":") { &t[..t.len() - 1] } else { t }),
+    }
+}
+
+fn shape_from_spans(e: &YamlValidationError, r: &gy::RenderedYaml) -> Option<&'static str> {
+    use YamlValidationErrorKind as K;
+    gy::known_shapes(r).into_iter().find(|&s| match s {
+        "compact-collection-return-after-deeper" => e.kind == K::BadIndentation,
+        "tab-after-dash-before-flow-or-quoted" => e.kind == K::TabInIndentation,
+        // a node opened in the middle of a scalar derails everything after it
+        "opener-inside-plain-scalar" => !matches!(e.kind, K::TabInIndentation | K::InvalidUtf8 | K::NestingTooDeep { .. }),
+        "block-scalar-on-compact-line" => matches!(e.kind, K::UnknownAnchor { .. } | K::BadIndentation | K::TrailingContent),
+        _ => false,
+    })
+}
+
+fn signature(text: &[u8], e: &YamlValidationError, r: Option<&gy::RenderedYaml>) -> String {
+    let mut s = format!("C18/generated-rejected/{}", kind_name(&e.kind));
+    if let Some(t) = shape_tag(text, e).or_else(|| r.and_then(|r| shape_from_spans(e, r))) {
+        s.push('/');
+        s.push_str(t);
+    }
+    s
+}
+
+fn accept_case(text: &[u8], st: &mut Stats, r: Option<&gy::RenderedYaml>) -> Result<(), Fail> {
+    st.evals(1);
+    match validate(text) {
+        Ok(()) => Ok(()),
+        Err(e) => {
+            // a rejection of a well-formed document; its position must still be consistent
+            check_position(text, &e)?;
+            Err(Fail::new(signature(text, &e, r), json!({"error": e.to_string(), "kind": format!("{:?}", e.kind), "yaml": show_bytes(text)})))
+        }
+    }
+}
+
+fn opts(cx: &Ctx, avoid: YAvoid) -> YOpts {
+    let mut o = c14::opts_for(cx);
+    o.avoid = avoid;
+    o
+}
+
+fn gen_text(u: &mut Src, o: &YOpts, st: Option<&mut Stats>) -> (Vec<gy::Y>, gy::RenderedYaml) {
+    let stream = c14::gen_model(u, o);
+    let r = gy::render(&stream, u, o);
+    if let Some(st) = st {
+        c14::classify(&stream, &r, st);
+    }
+    (stream, r)
+}
+
+const SOUP: &[&[u8]] = &[
+    b"-", b"- ", b"?", b"? ", b":", b": ", b",", b"[", b"]", b"{", b"}", b"#", b" #", b"&a", b"*a", b"!", b"!!str ", b"|", b">", b"|-", b">+", b"|2",
+    b"'", b"\"", b"''", b"\"\"", b"\\", b"\\n", b"\\x", b"%YAML 1.2", b"%TAG ! tag:x,2000:", b"---", b"...", b"--- ", b"\n", b"\r\n", b"\r", b" ", b"  ",
+    b"\t", b"a", b"key", b"k: v", b"null", b"~", b"1", b"<<", b"a: b: c", b"\xc3\xa9", b"\xff", b"\xef\xbb\xbf", b"\0",
+];
+
+fn mutate(u: &mut Src, base: &[u8]) -> Vec<u8> {
+    let mut t = base.to_vec();
+    let n = u.range(1, 4);
+    for _ in 0..n {
+        if t.is_empty() {
+            t.extend_from_slice(SOUP[u.below(SOUP.len())]);
+            continue;
+        }
+        let at = u.below(t.len());
+        match u.below(10) {
+            0 => t[at] = u.byte(),
+            1 => t.insert(at, u.byte()),
+            2 => {
+                t.remove(at);
+            }
+            3 => t.truncate(at),
+            4 => {
+                let s: &[u8] = SOUP[u.below(SOUP.len())];
+                let tail = t.split_off(at);
+                t.extend_from_slice(s);
+                t.extend_from_slice(&tail);
+            }
+            5 => {
+                // duplicate a chunk
+                let l = u.range(1, 40).min(t.len() - at);
+                let chunk = t[at..at + l].to_vec();
+                let tail = t.split_off(at);
+                t.extend_from_slice(&chunk);
+                t.extend_from_slice(&tail);
+            }
+            6 => {
+                // shift the indentation of the line holding `at`
+                let ls = t[..at].iter().rposition(|&b| b == b'\n' || b == b'\r').map(|p| p + 1).unwrap_or(0);
+                if u.bool() {
+                    t.insert(ls, if u.below(6) == 0 { b'\t' } else { b' ' });
+                } else if t.get(ls) == Some(&b' ') {
+                    t.remove(ls);
+                }
+            }
+            7 => {
+                // swap a line break style
+                if let Some(p) = t[at..].iter().position(|&b| b == b'\n') {
+                    t[at + p] = b'\r';
+                }
+            }
+            8 => {
+                let l = u.range(1, 30).min(t.len() - at);
+                t.drain(at..at + l);
+            }
+            _ => {
+                let q = *u.pick(&[b'"', b'\'', b':', b'#', b'-', b'[', b'}', b'&', b'*', b'|']);
+                t[at] = q;
+            }
+        }
+    }
+    t.truncate(4096);
+    t
+}
 
 pub fn run(cx: &mut Ctx) {
-    cx.infra("check not built");
+    cx.assume("well-formedness is by construction: G-yaml renders documents from a model using only presentations whose YAML 1.2.2 reading is unambiguous (gen/yaml.rs; cross-checked with PyYAML 6.0.3 during development)");
+    cx.assume("position convention as documented on validate::Position: 0-indexed byte offset, 1-indexed line, 1-indexed byte column; LF, CR and CRLF are the line breaks (src/yaml/line_break.rs)");
+    cx.assume("termination is observed in-process only (sizes <= 4 KiB); a hang would stall the run rather than be reported");
+    for (name, v) in cx.replays.clone() {
+        if v["kind"] == "input" {
+            let r = replay_input(&v);
+            cx.replay_outcome(&name, r);
+        }
+    }
+    let avoid_c18 = YAvoid { compact_collection_return_after_deeper: true, tab_after_dash_before_flow_or_quoted: true, opener_after_space_in_plain: true, block_scalar_on_compact_line: true, ..YAvoid::none() };
+    let o = opts(cx, avoid_c18);
+    cx.check(
+        "generated-accepted",
+        RULE,
+        Budget { quick: 20_000, thorough: 600_000, max_len: 3000 },
+        |u, st| {
+            let (stream, r) = gen_text(u, &o, Some(st));
+            st.describe(|| c14::describe(&stream, &r));
+            accept_case(&r.text, st, Some(&r))
+        },
+    );
+    for cl in [
+        "nontrivial", "break-CRLF", "break-CR", "multi-document", "anchor+alias", "chomp_strip", "chomp_clip", "chomp_keep", "literal", "folded",
+        "quoted_ambiguous", "block_maps", "block_seqs", "flow_maps", "flow_seqs", "compact_seq_entries", "seq_at_parent_indent", "trailing_comments",
+        "comment_lines", "blank_lines", "multiline_plain", "multiline_quoted", "multiline_flow", "tabs_separation",
+    ] {
+        cx.require_class("generated-accepted", cl, 20);
+    }
+    let mut plain = [YOpts::plain_data(), YOpts::block_only(), YOpts::flow_only()];
+    for p in plain.iter_mut() {
+        p.avoid = avoid_c18;
+    }
+    cx.check(
+        "generated-accepted-plain",
+        "G-yaml with YOpts::plain_data / block_only / flow_only: validate() must be Ok",
+        Budget { quick: 6_000, thorough: 200_000, max_len: 2000 },
+        |u, st| {
+            let o = &plain[u.below(3)];
+            let (stream, r) = gen_text(u, o, Some(st));
+            st.describe(|| c14::describe(&stream, &r));
+            accept_case(&r.text, st, Some(&r))
+        },
+    );
+    let open = opts(cx, YAvoid::none());
+    cx.check(
+        "open-finding-shapes",
+        "G-yaml with no known-finding shape avoided; rejections with a listed signature are counted, others are violations",
+        Budget { quick: 3_000, thorough: 60_000, max_len: 3000 },
+        |u, st| {
+            let (stream, r) = gen_text(u, &open, Some(st));
+            st.describe(|| c14::describe(&stream, &r));
+            accept_case(&r.text, st, Some(&r))
+        },
+    );
+
+    let small = {
+        let mut s = opts(cx, YAvoid::none());
+        s.max_nodes = 14;
+        s.max_depth = 12;
+        s
+    };
+    cx.check(
+        "arbitrary-positions",
+        "raw bytes / indicator soups / mutated generated streams (<= 4 KiB): validate() returns; on Err offset<=len and line/column = naive position of offset",
+        Budget { quick: 150_000, thorough: 5_000_000, max_len: 2500 },
+        |u, st| {
+            let (class, text): (&str, Vec<u8>) = match u.below(8) {
+                0 => {
+                    let n = u.len_biased(600, &[0, 1, 63, 64, 65]);
+                    ("raw-bytes", u.bytes(n))
+                }
+                1 | 2 => {
+                    let n = u.range(0, 60);
+                    let mut t = vec![];
+                    for _ in 0..n {
+                        t.extend_from_slice(SOUP[u.below(SOUP.len())]);
+                        if u.below(4) == 0 {
+                            t.push(b' ');
+                        }
+                        if u.below(5) == 0 {
+                            t.push(b'\n');
+                            t.extend(std::iter::repeat(b' ').take(u.below(6)));
+                        }
+                    }
+                    ("soup", t)
+                }
+                _ => {
+                    let (_, r) = gen_text(u, &small, None);
+                    ("mutated", mutate(u, &r.text))
+                }
+            };
+            st.class(class);
+            st.size(text.len());
+            st.describe(|| json!({"class": class, "text": show_bytes(&text), "text_hex": hex(&text)}));
+            st.evals(1);
+            match validate(&text) {
+                Ok(()) => {
+                    st.class("accepted");
+                    Ok(())
+                }
+                Err(e) => {
+                    st.class("rejected");
+                    st.class(&format!("kind-{}", kind_name(&e.kind)));
+                    st.nontrivial(hash_bytes(&text));
+                    st.class_if(text.contains(&b'\r'), "rejected-with-CR");
+                    st.class_if(e.position.line > 1, "rejected-past-line-1");
+                    st.sample(class, || json!({"text": show_bytes(&text), "error": e.to_string()}));
+                    check_position(&text, &e)
+                }
+            }
+        },
+    );
+    for cl in ["raw-bytes", "soup", "mutated", "rejected", "accepted", "rejected-with-CR", "rejected-past-line-1"] {
+        cx.require_class("arbitrary-positions", cl, 20);
+    }
+}
+
+/// Structured replay: `{"subcheck": "generated-accepted" | "arbitrary-positions", "input": {"yaml"| "yaml_hex": ..}}`
+fn replay_input(v: &Value) -> Option<Fail> {
+    let inp = &v["input"];
+    let text: Vec<u8> = match (inp["yaml"].as_str(), inp["yaml_hex"].as_str()) {
+        (_, Some(h)) => unhex(h),
+        (Some(s), None) => s.as_bytes().to_vec(),
+        _ => return Some(Fail::new("C18/replay/malformed", json!({"why": "no yaml"}))),
+    };
+    let positions_only = v["subcheck"] == "arbitrary-positions";
+    let mut st = Stats::default();
+    let r = catch(|| {
+        if positions_only {
+            match validate(&text) {
+                Ok(()) => Ok(()),
+                Err(e) => check_position(&text, &e),
+            }
+        } else {
+            accept_case(&text, &mut st, None)
+        }
+    });
+    match r {
+        Ok(Ok(())) => None,
+        Ok(Err(f)) => Some(f),
+        Err((loc, msg)) => Some(Fail::new(format!("panic@{}", panic_sig(&loc)), json!({"panic": msg, "location": loc}))),
+    }
 }
